@@ -718,7 +718,12 @@ def verify_case(T, case, timeout_ms=None, want=None, exclude=None):
         # an accident inside contract / model code while the obligations were being built (e.g. a clause that
         # expects the run's median step to be an integer number of nanoseconds): a limit of the contract on
         # this code - undecided, the bounded stand-in takes over.  Anything else is a checker failure.
-        acc = C.internal_error(e)
+        if isinstance(e, RecursionError) or "RecursionError" in repr(e):
+            # the lazily composed element functions of the model nest deeper than the interpreter allows for this
+            # code (long chains of masked views): a resource limit of the model, not a property of the code
+            acc = "model recursion depth exceeded"
+        else:
+            acc = C.internal_error(e)
         if acc is None:
             raise
         ob = ObResult(case.name + ":explore", "error")
